@@ -22,40 +22,6 @@ set_option linter.unusedVariables false
 namespace Ariadne.C01
 open Ariadne Ariadne.Gql Ariadne.ResultTypes Ariadne.Util Ariadne.Pyd Ariadne.Triggers01 Ariadne.C01Plain Ariadne.C01Mix
 
-/-- the fuel for nesting depth used in the region predicate (any value ≤ `execFuel` would do) -/
-def mixK (env : ResultTypes.Env) : Nat := 200
-
-/-- the classes of the fragments module: every fragment definition, in the order of the sorted fragment names -/
-def fragModule (env : ResultTypes.Env) : List ClassDecl :=
-  (sortStr (env.frags.map (·.name))).flatMap fun n =>
-    match findFragment? env.frags n with
-    | some f => fragClassesOf env f
-    | none => []
-
-def mixOpOK (env : ResultTypes.Env) (o : Operation) : Bool :=
-  match o.name, Validate.rootOf env.schema o with
-  | some n, some tn =>
-    !(o.dirs.any (·.name == Tables.mixinName))
-    && MixOK env (mixK env) (pascal n) tn o.sel
-    && nodupB ((mClass env (pascal n) tn o.sel ++ fragModule env).map (·.name))
-    && NoShadowedImport env (mClass env (pascal n) tn o.sel ++ fragModule env)
-    && decide (gfuel o.sel ≤ Triggers01.fuel)
-    && decide (mixK env ≤ execFuel)
-    && decide (mneed env (mixK env) tn o.sel + 1 ≤ execFuel)
-    && decide (fragDepth env ≤ (mClass env (pascal n) tn o.sel ++ fragModule env).length + 1)
-  | _, _ => false
-
-def fragGenOK (env : ResultTypes.Env) (f : Fragment) : Bool :=
-  nodupB ((fragClassesOf env f).map (·.name)) && decide (gfuel f.sel ≤ Triggers01.fuel)
-
-/-- the region of `C01_partial_mixin` -/
-def MixInput (inp : Input) : Prop :=
-  (schemaOK inp.env.schema && nodupB (inp.env.frags.map (·.name))
-   && inp.env.frags.all (fragOK inp.env (mixK inp.env)) && inp.env.frags.all (fragGenOK inp.env)
-   && inp.ops.all (mixOpOK inp.env)) = true
-
-instance (inp : Input) : Decidable (MixInput inp) := by unfold MixInput; infer_instance
-
 /-! ### generation of operations and fragments -/
 
 theorem generate_frag (env : ResultTypes.Env) (fuel : Nat) (f : Fragment) (marks : List Nat)
@@ -77,7 +43,7 @@ theorem generate_mix_op (env : ResultTypes.Env) (K : Nat) (hfr : FragsOK env K) 
     (fuel : Nat) (hf : gfuel o.sel ≤ fuel) :
     ∃ out, generate env fuel (.op o) [] = .ok out ∧ out.st.marks = [] ∧ out.st.unpacked = [] ∧
       out.classes = mClass env (pascal n) tn o.sel := by
-  obtain ⟨st', hgen, _, hmk, hup⟩ := mix_generation env K hfr (pascal n) tn o.sid o.sel {} hok rfl hnd
+  obtain ⟨st', hgen, _, hmk, hup⟩ := mix_generation env K hfr (pascal n) tn o.sid o.sel {} hok rfl (sidFree_nil _) hnd
     (fun _ _ h => by cases h) fuel hf
   refine ⟨{ classes := mClass env (pascal n) tn o.sel,
             rebuild := ((mClass env (pascal n) tn o.sel).filter classHasForwardRefs).map (·.name), st := st' }, ?_, hmk, hup, rfl⟩
@@ -92,12 +58,13 @@ theorem generate_mix_op (env : ResultTypes.Env) (K : Nat) (hfr : FragsOK env K) 
   rw [hrun]
 
 theorem generate_mix_frag (env : ResultTypes.Env) (K : Nat) (hfr : FragsOK env K) (f : Fragment) (hf : f ∈ env.frags)
-    (hnd : ((fragClassesOf env f).map (·.name)).Nodup) (fuel : Nat) (hfu : gfuel f.sel ≤ fuel) :
-    ∃ out, generate env fuel (.frag f) [] = .ok out ∧ out.classes = fragClassesOf env f := by
+    (hnd : ((fragClassesOf env f).map (·.name)).Nodup) (fuel : Nat) (hfu : gfuel f.sel ≤ fuel)
+    (M : List Nat) (hM1 : M.contains f.sid = false) (hM2 : sidFree M f.sel = true) :
+    ∃ out, generate env fuel (.frag f) M = .ok out ∧ out.classes = fragClassesOf env f := by
   obtain ⟨hk, hmix, hset, hloc, hfull, hfullS⟩ := fragOK_spec (hfr f hf)
   have hok : MixOK env K (pascal f.name) f.on f.sel = true := by
     simp [MixOK, hk, hset, hloc, hfull, hfullS]
-  obtain ⟨st', hgen, _, _, _⟩ := mix_generation env K hfr (pascal f.name) f.on f.sid f.sel {} hok rfl hnd
+  obtain ⟨st', hgen, _, _, _⟩ := mix_generation env K hfr (pascal f.name) f.on f.sid f.sel { marks := M } hok hM1 hM2 hnd
     (fun _ _ h => by cases h) fuel hfu
   have hnu : unpackFragment env f none = false := by
     have hany : ∀ x ∈ f.sel, (match x with | Selection.inline .. => true | _ => false) = false := by
@@ -108,10 +75,10 @@ theorem generate_mix_frag (env : ResultTypes.Env) (K : Nat) (hfr : FragsOK env K
     simp [hk]; exact hany
   refine ⟨{ classes := fragClassesOf env f,
             rebuild := ((fragClassesOf env f).filter classHasForwardRefs).map (·.name), st := st' }, ?_, rfl⟩
-  rw [generate_frag env fuel f [] hnu]
+  rw [generate_frag env fuel f M hnu]
   have hrun : ((mixinBases f.dirs >>= fun bases =>
-              parseTypeDefinition env fuel (pascal f.name) f.on f.sid f.sel false bases []) : M (List ClassDecl))
-            { marks := [] } = .ok (fragClassesOf env f, st') := by
+              parseTypeDefinition env fuel (pascal f.name) f.on f.sid f.sel false bases []) : ResultTypes.M (List ClassDecl))
+            { marks := M } = .ok (fragClassesOf env f, st') := by
     refine run_bind (mixinBases_none f.dirs _ hmix) ?_
     exact hgen
   rw [hrun]
@@ -245,7 +212,7 @@ theorem claimB_mix (inp : Input) (k : Nat) (j : J) (hp : MixInput inp) (hj : nod
     have hfm := (find_mem hf).1
     have hg := hfgen f hfm
     simp only [fragGenOK, Bool.and_eq_true, nodupB_iff, decide_eq_true_eq] at hg
-    obtain ⟨out, h1, h2⟩ := generate_mix_frag inp.env _ hfr f hfm hg.1 _ hg.2
+    obtain ⟨out, h1, h2⟩ := generate_mix_frag inp.env _ hfr f hfm hg.1 _ hg.2 [] rfl (sidFree_nil _)
     rw [hmarksAll (run inp).ops (fun r hr => hr)]
     exact ⟨f, out, hf, h1, h2⟩
   unfold claimB
